@@ -5,6 +5,7 @@ import random
 import canon_common as cc
 import lib
 import urlgen
+import urlrt
 
 ID = "C02"
 LEAN_MODULE = "UralModel.Props.C02"
@@ -17,8 +18,38 @@ THEOREMS = [
     "Ural.Props.C02.host_idempotent",
     "Ural.Props.C02.canonOpt_idempotent",
     "Ural.Props.C02.canonQuery_idempotent",
+    "Ural.Props.C02.comps_path",
+    "Ural.Props.C02.canonPath_idempotent",
+    "Ural.Props.C02.path_second_unquote_noop",
+    "Ural.Props.C02.path_modes_partial",
+    "Ural.Props.C02.canonPath_factors",
+    "Ural.Props.C02.dot_segment_insertion_irrelevant",
+    "Ural.Props.C02.insert_dot_segment",
+    "Ural.Props.C02.insert_escaped_dot_segment",
+    "Ural.Props.C02.insert_empty_segment",
+    "Ural.Props.C02.insert_updir_segment",
+    "Ural.Props.C02.unquote_respects_equiv",
+    "Ural.Props.C02.canonPath_respects_equiv",
+    "Ural.Props.C02.opt_modes_partial",
+    "Ural.Props.C02.query_modes_partial",
+    "Ural.Quote.assemble_expand",
+    "Ural.Quote.safelyUnquote_quote_unquote",
+    "Ural.Normpath.pathClean_cleanStr",
+    # idempotence of the whole function, the parser inside the model (Props/C02Whole.lean)
+    "Ural.Props.C02.canonicalize_idempotent_of_pathIdem",
+    "Ural.Props.C02.canonicalize_idempotent_partial",
+    "Ural.Props.C02.canonicalize_idempotent",
+    "Ural.Props.C02.idempotent_fails_outside",
+    "Ural.Props.C02.protoLetters_https",
+    "Ural.CanonIdem.pathIdem",
+    "Ural.CanonIdem.cleanUrl_printed_id",
+    "Ural.CanonIdem.canonParts_reparsed",
+    "Ural.Props.C01.canonicalize_reparse_partial",
+    "Ural.Props.C01.urlsplit_urlunsplit",
+    "Ural.Props.C01.accessors_unsplitNetloc",
 ]
-TABLE_OBLIGATIONS = []
+EXTRA_IMPORTS = ["UralModel.Props.C02Whole"]
+TABLE_OBLIGATIONS = ["Ural.Props.C02.tables_modes", "Ural.Normpath.pathClean_ascii", "Ural.Props.C01.tables_authority"]
 RULE = (
     "A case is a base URL (structured components over the quantifier's token alphabet) plus a "
     "composition of <= 3 spelling transformations from the statement's list (scheme/host case, "
@@ -28,7 +59,11 @@ RULE = (
     "Oracle: canonicalize(T(u)) == canonicalize(u), idempotence on both, and the four mode "
     "round trips. Both spellings also go through the model-vs-implementation comparison. "
     "Non-trivial = the transformation changed the string and canonicalize changed the base; "
-    "distinct = distinct (base, variant, options)."
+    "distinct = distinct (base, variant, options). Whole-function idempotence is also explored on raw "
+    "strings (cases with `idem`): the witnesses of the side conditions of canonicalize_idempotent_partial "
+    "and a sample of the netloc torture strings of harness/urlrt.py without brackets. The parser/printer "
+    "round trip streams of harness/urlrt.py (model parseUrl and whole-string canonicalizeUrl vs CPython / "
+    "ural) run on both spellings of every case."
 )
 EXHAUSTIVE = {
     "quick": "every single transformation on every URL of the structure sweep and of the length-1 component sweep (fixed transformation seeds)",
@@ -40,12 +75,22 @@ ASSUMPTIONS = [
     "URLs that the parser rejects are outside the property",
 ]
 UNPROVED = (
-    "idempotence is proved per component for userinfo items, fragment, query (unquoted mode) and host; "
-    "for the path (normpath) and in quoted mode, and for the whole function (re-parse of the printed URL), "
-    "escape-equivalence (%41 vs A, raw space vs %20), dot-segment "
-    "insertion, punycode vs Unicode spelling of a label (beyond the host rule's idempotence) and the mode "
-    "round trips are not theorems: decided on every run by the oracle over every transformation of the "
-    "statement and by the model-vs-implementation comparison of both spellings"
+    "proved per component, for all strings: idempotence in both modes and the four mode round trips for the "
+    "path (path_modes_partial: absPath; pathClean when the first pass is quoted), userinfo items and fragment "
+    "(opt_modes_partial) and the query (query_modes_partial) -- the round trips that start from quoted mode "
+    "under the explicit hypothesis cleanStr, which excludes exactly KF-C02-1's class (witnesses that the "
+    "full statements fail there are in Props/C02.lean); host idempotence; dot-segment insertion "
+    "(canonPath factors through the resolved view); escape-equivalence (unquote_respects_equiv: %41 vs A, raw "
+    "space vs %20, a non-ASCII character vs its escaped UTF-8 bytes). Whole function: idempotence in "
+    "unquoted mode is a theorem about the URL STRING (canonicalize_idempotent_partial / canonicalize_idempotent, "
+    "parser = the Lean model of urlsplit + accessors, compared with CPython on every run), under explicit side "
+    "conditions: default protocol of 1-64 letters, the bracket conditions of C01, no '%' in the host, an "
+    "authority is printed, the result does not end with white space; FullIdempotent is false outside "
+    "(idempotent_fails_outside; KF-C02-2, KF-C02-3 are the implementation's failures there). NOT theorems: "
+    "whole-function idempotence in quoted mode and the whole-function spelling-insensitivity / mode round "
+    "trips, which compose the component theorems with the re-parse of the printed URL; punycode vs Unicode spelling of a label beyond the host rule's idempotence (idna codec "
+    "abstract). These are decided on every run by the oracle over every transformation of the statement and "
+    "by the model-vs-implementation comparison of both spellings"
 )
 OPTS = [(False, False), (True, False), (False, True), (True, True)]
 TN = sorted(urlgen.C02_TRANSFORMS)
@@ -55,7 +100,8 @@ def variant(case):
     """deterministic: (base string, variant string) or None when not applicable"""
     p = case["parts"]
     if "raw" in p:
-        return None
+        # a raw string explored for idempotence only: both "spellings" are the string itself
+        return (p["raw"], p["raw"]) if case.get("idem") else None
     rng = random.Random(case["tseed"])
     q = dict(p)
     for name in case["T"]:
@@ -85,6 +131,10 @@ def _mk(p, T, tseed, quoted, sf):
     return {"parts": p, "T": T, "tseed": tseed, "quoted": quoted, "strip_fragment": sf}
 
 
+IDEM_CORPUS = [
+    "http://a.com\xa0/", "http://A1 /", "http://a.com\u2028?", "custom:///p", "zz://?q", "http:///p", "http://@/p",
+    "http://a%ABb.com/", "http://[::1%7A]:80/", "http://u:p@a.com:80/a/../b%2Fc/?k=%26#f%20", "svn+ssh://a.com/p",
+]
 CORPUS = [
     ("/%2541", []), ("/%7F", []), ("/%C2%85", []), ("/x%E3%80%80", []), ("/x%C2%A0", []), ("/%2F", []), ("/a/..", []), ("/%2E%2E/b", []),
 ]
@@ -94,10 +144,21 @@ def cases(rng, tier):
     b = urlgen.base_parts()
     # regression corpus: inputs on which canonicalize_url used not to be idempotent
     for segs, q in [(["%2541"], None), (["%7F"], None), (["%C2%85"], None), (["%2F"], None), (["a", ".."], [["q", "1"]]),
-                    (["a", "%2E%2E", "b"], None), (["a b"], None), (["%41"], [["%41", "%42"]])]:
+                    (["a", "%2E%2E", "b"], None), (["a b"], None), (["%41"], [["%41", "%42"]]),
+                    (["a\xa0b"], None), (["x\u3000y"], [["k\u2028", "v\xa0w"]])]:
         for quoted, sf in OPTS:
             for t in TN:
                 yield _mk(urlgen.with_(b, segments=segs, query=q), [t], 1, quoted, sf)
+    # whole-function idempotence on raw strings: the witnesses of the side conditions of
+    # canonicalize_idempotent_partial, then netloc torture strings without brackets
+    for u in IDEM_CORPUS:
+        for quoted, sf in OPTS:
+            yield dict(_mk({"raw": u}, [], 0, quoted, sf), idem=True)
+    tort = [u for u in urlrt.torture(random.Random(rng.randrange(1 << 30)), "quick") if "[" not in u and "]" not in u]
+    step = 1 if tier == "thorough" else 4
+    for i, u in enumerate(tort[::step]):
+        quoted, sf = OPTS[i % 4]
+        yield dict(_mk({"raw": u}, [], 0, quoted, sf), idem=True)
     k = 0
     for p in urlgen.structure_sweep():
         if "raw" in p:
@@ -131,7 +192,10 @@ def ops(case):
     if v is None:
         return []
     base, var = v
-    return cc.ops(base, case["quoted"], case["strip_fragment"]) + cc.ops(var, case["quoted"], case["strip_fragment"])
+    a, b = (base, case["quoted"], case["strip_fragment"]), (var, case["quoted"], case["strip_fragment"])
+    if case.get("idem"):
+        return cc.ops(*a) + urlrt.ops(*a)
+    return cc.ops(*a) + cc.ops(*b) + urlrt.ops(*a) + urlrt.ops(*b)
 
 
 def impl(case):
@@ -139,7 +203,10 @@ def impl(case):
     if v is None:
         return []
     base, var = v
-    return cc.impl(base, case["quoted"], case["strip_fragment"]) + cc.impl(var, case["quoted"], case["strip_fragment"])
+    a, b = (base, case["quoted"], case["strip_fragment"]), (var, case["quoted"], case["strip_fragment"])
+    if case.get("idem"):
+        return cc.impl(*a) + urlrt.impl(*a)
+    return cc.impl(*a) + cc.impl(*b) + urlrt.impl(*a) + urlrt.impl(*b)
 
 
 def _parses(u):
@@ -207,6 +274,38 @@ def kf_mode_roundtrip_raw_delim(case, failure):
             if "=" in item and "=" in item.split("=", 1)[1]:
                 return True
     return False
+
+
+def _first_output(case):
+    from ural import canonicalize_url as canon
+
+    v = variant(case)
+    if v is None:
+        return None
+    try:
+        return canon(v[0], quoted=case["quoted"], strip_fragment=case["strip_fragment"])
+    except Exception:  # noqa
+        return None
+
+
+def kf_result_ends_with_space(case, failure):
+    """KF-C02-2: the printed result ends with a white-space character (a host ending with a
+    space / no-break space / line separator and nothing printed after it, e.g.
+    'http://a.com\xa0/' -> 'http://a.com\xa0'): the second call strips it as surrounding
+    white space.  Outside canonicalize_idempotent_partial by its hypothesis `hlast`."""
+    c = _first_output(case)
+    return "not idempotent" in failure and c is not None and c[-1:].isspace()
+
+
+def kf_no_authority_printed(case, failure):
+    """KF-C02-3: an unknown scheme with an empty authority ('custom:///p', 'zz://?q'):
+    urlunsplit prints 'custom:/p' without '//', which the second call no longer recognises
+    as having a protocol ('https://custom/p').  Outside canonicalize_idempotent_partial by its
+    hypothesis `hnl`."""
+    import re
+
+    c = _first_output(case)
+    return "not idempotent" in failure and c is not None and re.match(r"^[a-zA-Z][a-zA-Z0-9+.-]*:(?!//)", c) is not None
 
 
 def nontrivial(case):
